@@ -15,6 +15,12 @@ CLAIMED = {
             "Every call site producing Result<_, S::Error|OutputError<S>> for a caller-supplied sink S is shown to "
             "propagate the error to the return place; none is unwrapped, swallowed or dead. Exhaustive over call "
             "sites, which is what 'for every k-th sink operation' quantifies over.", "4/C12"),
+    "C07": ("CHAIN + RANGE extraction from MIR vs documented ranges + ERRDISC on VerifyError + compile-fail "
+            "witnesses (TYPESTATE) for Verified<T>",
+            "Exhaustive over the config type tree: every nested Verify field is verified and propagated by its "
+            "parent, every extracted range equals the documented one (float range incl. NaN), Verified<T> is only "
+            "constructed on the Ok edge of verify() or in an unsafe fn, and six violating client programs fail to "
+            "compile (twins compile). Decides 'accepts iff in range'; not 'accepted configs never panic'.", "4/C07"),
 }
 
 NA = {
